@@ -725,6 +725,17 @@ func (fr *Frame) execInstr(st *State, in ssa.Instruction) {
 		ref := r.alloc(st, "new_"+x.Comment)
 		if isAggregate(t) {
 			r.storeAt(st, ref, t, r.zero(t))
+			// ghost fields of a new object start at their zero value as well
+			if nt := namedOf(t); nt != nil {
+				for _, gf := range r.eng.specs.Ghosts {
+					if gf.Type == nt.Obj().Name() {
+						if g := r.eng.ghostField(t, gf.Name); g != nil {
+							h := r.heapGet(st, g.heap)
+							r.heapSet(st, g.heap, app("store", h, ref, r.zero(g.typ).S))
+						}
+					}
+				}
+			}
 			fr.bind(st, x, TV{ref, SInt, x.Type()})
 		} else {
 			a := &Addr{kind: aCell, base: ref, typ: t}
@@ -1496,6 +1507,11 @@ func zeroOffsetSlice(v ssa.Value, seen map[ssa.Value]bool) bool {
 			if _, isSlice := x.Type().Underlying().(*types.Slice); isSlice {
 				return true
 			}
+		}
+	case *ssa.Slice:
+		// make([]T, n) with constant n is `new [n]T` sliced from its beginning
+		if al, ok := x.X.(*ssa.Alloc); ok && x.Low == nil && al.Comment == "makeslice" {
+			return true
 		}
 	}
 	return false
